@@ -18,6 +18,7 @@ func init() {
 			"R2 response-writer typestate: the finalising event (returning the pooled bufio.Writer) happens only in Close, is followed by clearing the field on every path, and http.Flusher.Flush does not reach it; the chunked encoder is created when the header is written; " +
 			"R3 the adapter creates one response writer per request, calls ServeHTTP once, synchronously, and finishes the response by a deferred call that reaches Close; " +
 			"R4 the connection close is requested only when request.Close is set and only after the request was delivered (C06-R4); Close marks request.Close when the response is not self-delimiting (shouldClose: request asked to close, or neither Content-Length nor Transfer-Encoding set); the header is written at most once and before any body byte. " +
+			"ALSO: status line prints major.minor in that order; the close decision reads the response's own headers; imports listed in RULES.md. " +
 			"DOES NOT DECIDE: status line text, header syntax, chunk framing correctness, HTTP/1.0 keep-alive rules, explicit Content-Length vs actual body size.",
 		Assumptions: []string{"net/http.ReadRequest / httputil.NewChunkedWriter behave as documented"},
 		Run:         runC15,
